@@ -8,10 +8,7 @@ mi_subproc_t* g_subproc;
 size_t g_next_n, g_got_n;            /* cursor calls / segments handed out by the cursor */
 size_t g_reclaim_n, g_mark_n, g_trypurge_n;
 bool g_suit_ret;
-/* suitability as specified (and enforced on arena.c): bound heap <=> exactly its arena; unbound heap <=> anything but exclusive arenas */
-#define VC_SUIT(memid, req) ((req) != 0 ? ((memid).memkind == MI_MEM_ARENA && (memid).mem.arena.id == (req)) : !((memid).memkind == MI_MEM_ARENA && (memid).mem.arena.is_exclusive))
-bool _mi_heap_memid_is_suitable(mi_heap_t* heap, mi_memid_t memid)     /* heap.c: forwards to _mi_arena_memid_is_suitable(memid, heap->arena_id), contract enforced on arena.c */
-__CPROVER_requires(1) __CPROVER_assigns() __CPROVER_ensures(__CPROVER_return_value == VC_SUIT(memid, heap->arena_id));
+#include "contracts/heap_suit.h"     /* VC_SUIT, VC_MEMID_OK, and the contract of _mi_heap_memid_is_suitable (enforced on heap.c, pair heap_memid_suitable) */
 
 void _mi_arena_field_cursor_init(mi_heap_t* heap, mi_subproc_t* subproc, bool visit_all, mi_arena_field_cursor_t* current)
 __CPROVER_requires(__CPROVER_w_ok(current, sizeof(*current))) __CPROVER_assigns(*current) __CPROVER_ensures(1);
@@ -65,7 +62,7 @@ __CPROVER_ensures(VC_CONSERVED);
 
 /* reclaim-on-free of one particular segment */
 bool _mi_segment_attempt_reclaim(mi_heap_t* heap, mi_segment_t* segment)
-__CPROVER_requires(__CPROVER_is_fresh(heap, sizeof(mi_heap_t)) && __CPROVER_is_fresh(heap->tld, sizeof(mi_tld_t)) && __CPROVER_is_fresh(segment, sizeof(mi_segment_t)) && g_reclaim_n == 0)
+__CPROVER_requires(__CPROVER_is_fresh(heap, sizeof(mi_heap_t)) && __CPROVER_is_fresh(heap->tld, sizeof(mi_tld_t)) && __CPROVER_is_fresh(segment, sizeof(mi_segment_t)) && g_reclaim_n == 0 && VC_MEMID_OK(segment->memid))
 __CPROVER_assigns(g_reclaim_n)
 __CPROVER_ensures(g_reclaim_n <= 1)
 /* only abandoned segments of the same sub-process that suit the heap, and only after this thread won the atomic un-abandon */
